@@ -947,6 +947,13 @@ static int apply_patch(cJSON *object, const cJSON *patch, const cJSON_bool case_
 
         if (opcode == MOVE)
         {
+            const size_t from_length = strlen(from->valuestring);
+            if ((strncmp(path->valuestring, from->valuestring, from_length) == 0) && (path->valuestring[from_length] == '/'))
+            {
+                /* "from" is a proper prefix of "path": a value can't be moved into one of its own children */
+                status = 5;
+                goto cleanup;
+            }
             value = detach_path(object, (unsigned char*)from->valuestring, case_sensitive);
         }
         if (opcode == COPY)
